@@ -41,6 +41,9 @@ pub struct TreeSpec {
     /// pad directories with runs of deleted slots so that they span several clusters
     #[serde(default)]
     pub big_dirs: bool,
+    /// Some(k): pad every directory with orphan long-name slots (which nothing may reuse) until exactly k slots are free
+    #[serde(default)]
+    pub full_dirs: Option<u8>,
 }
 
 #[derive(Serialize, Deserialize, Clone, Debug, PartialEq)]
@@ -130,7 +133,7 @@ impl VolSpec {
             backup_boot: 6,
             fsinfo: FsInfoKind::Correct,
             label: false,
-            tree: TreeSpec { seed: 1, dirs: 0, files: 0, depth: 0, max_clusters: 1, lfn: false, deleted: false, vol_label: false, fragment: false, free: None, free_high: false, free_last: false, bad: 0, high_nibble: false, latin1: false, big_dirs: false },
+            tree: TreeSpec { seed: 1, dirs: 0, files: 0, depth: 0, max_clusters: 1, lfn: false, deleted: false, vol_label: false, fragment: false, free: None, free_high: false, free_last: false, bad: 0, high_nibble: false, latin1: false, big_dirs: false, full_dirs: None },
         }
     }
 }
@@ -445,6 +448,19 @@ impl<'a> Builder<'a> {
                 slots.push(s);
             }
         }
+        if let Some(k) = self.spec.full_dirs {
+            // fill up with orphan long-name slots: they are neither entries nor reusable, so the next
+            // few creates hit "directory full" (FAT16 root) or have to grow the directory
+            let per = 16 * self.g.spc as usize;
+            // sometimes two or three full clusters, so that growth starts from a chain that already has a middle
+            let want_clusters = *self.rng.pick(&[1usize, 1, 2, 3]);
+            let total = if is_root && !fat32 { self.g.root_entries as usize } else { ((slots.len() + k as usize + per - 1) / per).max(want_clusters) * per };
+            let pad = make_name("NOBODY", "");
+            let units = [0x0050u16, 0x0041, 0x0044, 0, 0xFFFF, 0xFFFF, 0xFFFF, 0xFFFF, 0xFFFF, 0xFFFF, 0xFFFF, 0xFFFF, 0xFFFF];
+            while slots.len() + (k as usize) < total {
+                slots.push(lfn_slot_raw(0x41, fatspec::sfn_checksum(&pad).wrapping_add(1), &units));
+            }
+        }
         // write the directory
         match first {
             None => {
@@ -457,10 +473,13 @@ impl<'a> Builder<'a> {
             Some(c0) => {
                 let per = 16 * self.g.spc as usize;
                 let mut need = ((slots.len() + 1 + per - 1) / per) as u32; // +1: room for the end marker
-                if self.rng.chance(1, 8) {
+                if let Some(k) = self.spec.full_dirs {
+                    need = (((slots.len() + k as usize + per - 1) / per).max(1)) as u32; // (slots were padded to whole clusters above)
+                }
+                if self.spec.full_dirs.is_none() && self.rng.chance(1, 8) {
                     need += 1; // an extra, empty cluster
                 }
-                if self.rng.chance(1, 8) && slots.len() % per != 0 {
+                if self.spec.full_dirs.is_none() && self.rng.chance(1, 8) && slots.len() % per != 0 {
                     // directory exactly full: no end marker
                     while slots.len() % per != 0 {
                         let mut d = entry_raw(&make_name("PAD", "X"), 0x20, 0, 0, fat32, FORMAT_TIME);
@@ -1019,6 +1038,7 @@ pub fn gen_volspec(rng: &mut Rng, bias: Bias, lba: u32, slot: u8) -> VolSpec {
             high_nibble: fat32 && rng.chance(1, 3),
             latin1: rng.chance(1, 4),
             big_dirs: rng.chance(1, 3),
+            full_dirs: if spc <= 8 && rng.chance(1, if matches!(bias, Bias::Space | Bias::Small) { 3 } else { 6 }) { Some(rng.below(3) as u8) } else { None },
         },
     }
 }
